@@ -94,6 +94,12 @@ Print Assumptions C09_loop_eq_reference.
 (* ---- increase_feasible (DESIGN M): the result is feasible for the ORIGINAL instance and contains the
    initial allocation, for every base rule that returns duplicate-free sets of instance projects within
    the budget it is given and extends its initial allocation ---- *)
+(* NOTE (found while composing the wrappers with the concrete rule models, Props/C09rules.v): the contract
+   hypothesis below quantifies over EVERY budget b, which no rule can meet on an instance with non-negative
+   costs (take b < 0: C09rules_contract_all_budgets_unsatisfiable), so this statement and its irresolute and
+   iterated twins are true but VACUOUS.  The usable statements, with the contract asked only for budgets
+   >= the original one, are C09rules_increase_feasible_from_budget(_irresolute),
+   C09rules_mes_iterated_feasible(_irresolute), and their instances for Equal Shares, greedy and Phragmen. *)
 Theorem C09_increase_feasible : forall I init, feasible I init ->
   forall R : Q -> alloc,
   (forall b, feasible (mkInst (costs I) b) (R b)) ->      (* R_feasible_for_its_budget *)
